@@ -47,9 +47,22 @@ Proof. exact (compiled_order_cur rules_compiled_in_source_order). Qed.
 (* A declared GRANT ALL / REVOKE ALL that the builder accepts gives every resource it matches exactly
    the operations applicable to that resource - what the oracle reads ALL as. *)
 Theorem all_rule_covers_every_applicable_operation :
-  forall S d t, accepted S d = true -> dall d = true ->
+  forall S d t, accepted S d = true -> dall d = true -> dsrc d = false ->
   In t (vis_types S (dws d)) -> fmatch (rflt (drl d)) t = true -> rops (eff_rule S d) = taclops t.
 Proof. exact (accepted_all_ops_cur all_rule_requires_uniform_operations). Qed.
+
+(* FULL STATEMENT (refuted by the code as it is, finding C13-F9): a VSQL `GRANT/REVOKE ALL ON TABLE`
+   carries every operation applicable to the table (INSERT, UPDATE, ACTIVATE, DEACTIVATE, SELECT), as
+   the builder's GrantAll/RevokeAll.  The compiler's list (pkg/parser/const.go, read by the translator)
+   has no ACTIVATE and DEACTIVATE: REVOKE ALL leaves them granted. *)
+Theorem vsql_all_refuted_for_insert_update_select :
+  mem acl_op_activate (vsql_all [acl_op_select; acl_op_insert; acl_op_update] [acl_op_select; acl_op_insert; acl_op_update] []) = false.
+Proof. reflexivity. Qed.
+(* PARTIAL / once repaired: if the compiler's list is the table's operation set, so is the rule's *)
+Theorem vsql_all_covers_table_operations_if_list_complete :
+  forall S d t, dall d = true -> dsrc d = true -> rfields (drl d) = [] ->
+  lset_eqb parser_all_table_ops (taclops t) = true -> lset_eqb (rops (eff_rule S d)) (taclops t) = true.
+Proof. exact vsql_all_ops. Qed.
 
 (* A rule keeps the field list it was declared with, whatever the caller does afterwards with the
    slice it passed (C13-F8 repaired: the rule clones it). *)
@@ -187,7 +200,7 @@ Proof. exact sat_query_link. Qed.
    operations (always so for rules written in VSQL: tables, views and functions have separate
    statement forms). *)
 Theorem grant_all_reading :
-  forall S d t, dall d = true -> In t (vis_types S (dws d)) -> fmatch (rflt (drl d)) t = true ->
+  forall S d t, dall d = true -> dsrc d = false -> In t (vis_types S (dws d)) -> fmatch (rflt (drl d)) t = true ->
   (forall t', In t' (vis_types S (dws d)) -> fmatch (rflt (drl d)) t' = true -> taclops t' = taclops t) ->
   rops (eff_rule S d) = taclops t.
 Proof. exact eff_rule_uniform. Qed.
@@ -266,7 +279,7 @@ Qed.
 Theorem rule_fields_refuted_when_shared :
   exists S d, rfields (eff_rule_gen false S d) <> rfields (drl d).
 Proof.
-  exists (mkSchema [] []), (mkD 20 0 false [6] (mkRule [acl_op_select] true (FQNames [14]) [5] 11)).
+  exists (mkSchema [] []), (mkD 20 0 false [6] false (mkRule [acl_op_select] true (FQNames [14]) [5] 11)).
   vm_compute. discriminate.
 Qed.
 (* ... unless the caller leaves its slice alone *)
@@ -282,7 +295,7 @@ Theorem grants_first_refuted :
     is_allowed (install S (compiled_order_gen true l)) sysr w op res [] rol = ODeny.
 Proof.
   exists (mkSchema [mkTyp 11 19 20 [] None false false true false [8]; mkTyp 14 5 20 [] (Some [0; 1; 4; 5]) true false false true [1; 2; 3; 4; 5]] [mkWs 20 [] []]),
-    [mkD 20 7 false [] (mkRule [acl_op_select] false (FQNames [14]) [] 11); mkD 20 7 false [] (mkRule [acl_op_select] true (FQNames [14]) [] 11)],
+    [mkD 20 7 false [] false (mkRule [acl_op_select] false (FQNames [14]) [] 11); mkD 20 7 false [] false (mkRule [acl_op_select] true (FQNames [14]) [] 11)],
     99, 20, acl_op_select, 14, [11].
   split; [vm_compute; discriminate|]. split; vm_compute; reflexivity.
 Qed.
@@ -294,12 +307,12 @@ Proof. exact compiled_order_distinct_blocks. Qed.
    operations than apply to it (view sorting before a table) *)
 Theorem all_rule_refuted_without_uniformity :
   exists S d t, accepted_gen false S d = true /\ dall d = true /\ In t (vis_types S (dws d)) /\
-    fmatch (rflt (drl d)) t = true /\ rops (eff_rule S d) <> taclops t.
+    fmatch (rflt (drl d)) t = true /\ dsrc d = false /\ rops (eff_rule S d) <> taclops t.
 Proof.
   pose (v := mkTyp 13 12 20 [] (Some [0; 5]) false false false true [1; 2; 5]).
   pose (t := mkTyp 14 7 20 [] (Some [0; 1; 4; 5]) true false false true [1; 2; 3; 4; 5]).
-  exists (mkSchema [v; t] [mkWs 20 [] []]), (mkD 20 0 true [] (mkRule [] true (FQNames [13; 14]) [] 11)), t.
-  split; [reflexivity|]. split; [reflexivity|]. split; [vm_compute; auto|]. split; [reflexivity|]. vm_compute. discriminate.
+  exists (mkSchema [v; t] [mkWs 20 [] []]), (mkD 20 0 true [] false (mkRule [] true (FQNames [13; 14]) [] 11)), t.
+  split; [reflexivity|]. split; [reflexivity|]. split; [vm_compute; auto|]. split; [reflexivity|]. split; [reflexivity|]. vm_compute. discriminate.
 Qed.
 
 Theorem role_ancestors_complete_partial :
@@ -387,9 +400,9 @@ Proof. vm_compute. repeat split. Qed.
 Example declared_order_nonvacuous :
   let S0 := mkSchema [ex_role 11; mkTyp 14 5 20 [] (Some [0; 1; 4; 5]) true false false true [1; 2; 3; 4; 5];
                       mkTyp 16 12 20 [] (Some [0; 5]) false false false true [1; 2; 5]] [mkWs 20 [] []] in
-  let g := mkD 20 0 false [] (mkRule [acl_op_select] true (FQNames [14]) [] 11) in
-  let r := mkD 20 0 false [] (mkRule [acl_op_select] false (FQNames [14]) [] 11) in
-  let all := mkD 20 0 true [] (mkRule [] true (FQNames [14; 16]) [] 11) in
+  let g := mkD 20 0 false [] false (mkRule [acl_op_select] true (FQNames [14]) [] 11) in
+  let r := mkD 20 0 false [] false (mkRule [acl_op_select] false (FQNames [14]) [] 11) in
+  let all := mkD 20 0 true [] false (mkRule [] true (FQNames [14; 16]) [] 11) in
   is_allowed (install S0 [g; r; g]) 99 20 acl_op_select 14 [] [11] = OAllow /\
   is_allowed (install S0 [g; r]) 99 20 acl_op_select 14 [] [11] = ODeny /\
   is_allowed (install S0 [r; g; r]) 99 20 acl_op_select 14 [] [11] = ODeny /\
@@ -401,10 +414,10 @@ Example all_rule_nonvacuous :
   let S0 := mkSchema [mkTyp 13 7 20 [] (Some [0; 1; 4; 5]) true false false true [1; 2; 3; 4; 5];
                       mkTyp 14 5 20 [] (Some [0; 1; 4; 6]) true false false true [1; 2; 3; 4; 5];
                       mkTyp 16 12 20 [] (Some [0; 5]) false false false true [1; 2; 5]] [mkWs 20 [] []] in
-  accepted S0 (mkD 20 0 true [] (mkRule [] true (FQNames [13; 14]) [] 11)) = true /\
-  rops (eff_rule S0 (mkD 20 0 true [] (mkRule [] true (FQNames [13; 14]) [] 11))) = [1; 2; 3; 4; 5] /\
-  accepted S0 (mkD 20 0 true [] (mkRule [] true (FQNames [14; 16]) [] 11)) = false /\
-  accepted S0 (mkD 20 0 false [] (mkRule [acl_op_select] true (FQNames [14; 16]) [] 11)) = true.
+  accepted S0 (mkD 20 0 true [] false (mkRule [] true (FQNames [13; 14]) [] 11)) = true /\
+  rops (eff_rule S0 (mkD 20 0 true [] false (mkRule [] true (FQNames [13; 14]) [] 11))) = [1; 2; 3; 4; 5] /\
+  accepted S0 (mkD 20 0 true [] false (mkRule [] true (FQNames [14; 16]) [] 11)) = false /\
+  accepted S0 (mkD 20 0 false [] false (mkRule [acl_op_select] true (FQNames [14; 16]) [] 11)) = true.
 Proof. vm_compute. repeat split. Qed.
 
 (* consequences of the declared semantics that look odd (seed agent c13-5, observations 8a-8c); the
@@ -441,7 +454,7 @@ Example sibling_ancestors_in_name_order :
 Proof. vm_compute. repeat split. Qed.
 
 Example rule_fields_nonvacuous :
-  let d := mkD 20 0 false [6] (mkRule [acl_op_update] true (FQNames [14]) [5] 11) in
+  let d := mkD 20 0 false [6] false (mkRule [acl_op_update] true (FQNames [14]) [5] 11) in
   rfields (eff_rule (mkSchema [] []) d) = [5] /\ rfields (eff_rule_gen false (mkSchema [] []) d) = [6].
 Proof. vm_compute. split; reflexivity. Qed.
 
@@ -456,6 +469,8 @@ Proof. vm_compute. repeat split. Qed.
 
 Print Assumptions rules_kept_in_declared_order.
 Print Assumptions all_rule_covers_every_applicable_operation.
+Print Assumptions vsql_all_refuted_for_insert_update_select.
+Print Assumptions vsql_all_covers_table_operations_if_list_complete.
 Print Assumptions grants_first_refuted.
 Print Assumptions grants_first_partial.
 Print Assumptions all_rule_refuted_without_uniformity.
